@@ -1,7 +1,7 @@
 #!/bin/bash
 # ingest the round-4 deliverables (each worker chose its own target property; see seed_out/target.txt)
 cd "$(dirname "$0")/.."
-for d in /tmp/seed4/X*/seed_out; do
+for d in ${SEEDROOT:-/tmp/seed4}/*/seed_out; do
   [ -f "$d/target.txt" ] || continue
   for n in 1 2; do
     pid=$(sed -n "${n}p" "$d/target.txt" | grep -oE 'C[0-9]{2}' | head -1)
